@@ -1,4 +1,5 @@
 import RagcModel.Model.Priority
+import RagcModel.Gen.Tables
 import RagcModel.Props.C03
 import RagcModel.Props.C07
 import RagcModel.Props.C09
@@ -18,6 +19,52 @@ the case streams reach.
 -/
 namespace Ragc.Props.C18
 open Ragc.Priority
+
+/-! ### k-mer mask of the fallback-minimizer scans (defect D14, repaired in /repo commit b2fb45b) -/
+
+/-- `x << s` on `u64` in the overflow-checked reading: a shift amount ≥ 64 panics (`none`). -/
+def shlChecked (x s : Nat) : Option Nat := if s < 64 then some (x * 2 ^ s % 2 ^ 64) else none
+/-- … and in the release reading: the amount is taken modulo 64. -/
+def shlWrapping (x s : Nat) : Nat := x * 2 ^ (s % 64) % 2 ^ 64
+
+/-- The mask expression of the current source, `if k >= 32 { !0u64 } else { (1u64 << (2 * k)) - 1 }`,
+in the checked reading (`none` = panic) … -/
+def maskChecked (k : Nat) : Option Nat :=
+  if k ≥ 32 then some (2 ^ 64 - 1)
+  else match shlChecked 1 (2 * k) with
+    | some v => if v = 0 then none else some (v - 1)   -- `- 1` on 0 would underflow
+    | none => none
+/-- … and in the release reading. -/
+def maskWrapping (k : Nat) : Nat :=
+  if k ≥ 32 then 2 ^ 64 - 1 else (shlWrapping 1 (2 * k) + 2 ^ 64 - 1) % 2 ^ 64
+
+/-- The expression before the repair, `(1u64 << (2 * k)) - 1`. -/
+def maskOldChecked (k : Nat) : Option Nat :=
+  match shlChecked 1 (2 * k) with
+  | some v => if v = 0 then none else some (v - 1)
+  | none => none
+def maskOldWrapping (k : Nat) : Nat := (shlWrapping 1 (2 * k) + 2 ^ 64 - 1) % 2 ^ 64
+
+/-- The source has exactly the guarded expression at both sites (regenerated on every run). -/
+theorem fallback_mask_sites :
+    Ragc.Gen.fallbackMaskExprs =
+      ["if k >= 32 { !0u64 } else { (1u64 << (2 * k)) - 1 }", "if k >= 32 { !0u64 } else { (1u64 << (2 * k)) - 1 }"] := by
+  decide
+
+/-- For every accepted k (1..32) the two readings agree and give the 2k-bit mask: no panic, no wrap. -/
+theorem fallback_mask_profiles_agree (k : Nat) (h1 : 1 ≤ k) (h32 : k ≤ 32) :
+    maskChecked k = some (4 ^ k - 1) ∧ maskWrapping k = 4 ^ k - 1 := by
+  have : k ∈ List.range 33 := by simp; omega
+  revert this h1
+  revert k
+  decide +kernel
+
+/-- The repaired defect: at k = 32 the old expression panicked under overflow checks and evaluated
+to 0 (not 2^64 - 1) in a release build — the two profiles behaved differently, and the release
+build masked every fallback k-mer to 0. For k < 32 it was fine. -/
+theorem old_mask_k32 : maskOldChecked 32 = none ∧ maskOldWrapping 32 = 0 ∧
+    ∀ k ∈ List.range 32, 1 ≤ k → maskOldChecked k = some (4 ^ k - 1) ∧ maskOldWrapping k = 4 ^ k - 1 := by
+  decide +kernel
 
 /-! ### priority arithmetic (agc_compressor.rs push / sync tokens) -/
 
